@@ -3,6 +3,7 @@
 P="$1"; shift
 cd /repo && git apply --check "$P" || { echo "PATCH DOES NOT APPLY"; exit 3; }
 git apply "$P"
+export VERIF_EVIDENCE_DIR=/verif/work/evidence_mutant; mkdir -p $VERIF_EVIDENCE_DIR
 for id in "$@"; do
   cd /verif && ./check "$id" --tier quick > /tmp/try_$id.out 2>&1; rc=$?
   echo "== $id exit=$rc  $(grep -c '^VIOLATION' /tmp/try_$id.out) VIOLATION lines"; grep -m2 -A1 '^VIOLATION' /tmp/try_$id.out | cut -c1-300; grep -m3 'TOOL-ERROR' /tmp/try_$id.out
